@@ -25,6 +25,7 @@ import h2.connection
 import h2.errors
 import h2.events
 import h2.exceptions
+import h2.settings
 import priority
 
 from twisted.internet._producer_helpers import _PullToPush
@@ -183,6 +184,14 @@ class H2Connection(Protocol, TimeoutMixin):
                 self._handleWindowUpdate(event)
             elif isinstance(event, h2.events.PriorityUpdated):
                 self._handlePriorityUpdate(event)
+            elif isinstance(event, h2.events.RemoteSettingsChanged):
+                if (
+                    h2.settings.SettingCodes.INITIAL_WINDOW_SIZE
+                    in event.changed_settings
+                ):
+                    # Raising the initial window size opens the window of
+                    # every existing stream (RFC 7540, 6.9.2).
+                    self._allWindowsUpdated()
             elif isinstance(event, h2.events.ConnectionTerminated):
                 self.transport.loseConnection()
                 self.connectionLost(
@@ -681,18 +690,26 @@ class H2Connection(Protocol, TimeoutMixin):
                 self._wakeSendingLoop()
             self.streams[streamID].windowUpdated()
         else:
-            # Update strictly applies to all streams.  Producers resumed here
-            # may finish their streams, which removes them from self.streams,
-            # so iterate over a copy.
-            for stream in list(self.streams.values()):
-                if not self._streamIsActive(stream.streamID):
-                    continue
-                stream.windowUpdated()
+            # Update strictly applies to all streams.
+            self._allWindowsUpdated()
 
-                # If we still have data to send for this stream, unblock it.
-                if self._outboundStreamQueues.get(stream.streamID):
-                    self.priority.unblock(stream.streamID)
-                    self._wakeSendingLoop()
+    def _allWindowsUpdated(self):
+        """
+        The flow control window of every stream may have opened: either the
+        connection window grew or the peer raised
+        SETTINGS_INITIAL_WINDOW_SIZE.
+        """
+        # Producers resumed here may finish their streams, which removes them
+        # from self.streams, so iterate over a copy.
+        for stream in list(self.streams.values()):
+            if not self._streamIsActive(stream.streamID):
+                continue
+            stream.windowUpdated()
+
+            # If we still have data to send for this stream, unblock it.
+            if self._outboundStreamQueues.get(stream.streamID):
+                self.priority.unblock(stream.streamID)
+                self._wakeSendingLoop()
 
     def _wakeSendingLoop(self):
         """
